@@ -1671,6 +1671,14 @@ class Interp:
                         return None
                     out += p
                 return out
+            if isinstance(it, tuple) and it and it[0] == 'iter' and it[1] in ('range', 'prange') and isinstance(tgt, ast.Name):
+                # a range walked through enumerate / zip: element i is lo + i * step
+                ra = [self.as_scalar(a) for a in it[2]]
+                lo_, hi_, st_ = (Rat.const(0), ra[0], Rat.const(1)) if len(ra) == 1 else (ra[0], ra[1], Rat.const(1)) if len(ra) == 2 else tuple(ra)
+                if isinstance(st_, Rat) and st_.is_const() and st_.const_value() in (1, -1):
+                    ranges_in.append(1)
+                    return [(tgt, ((hi_ - lo_) * st_, lambda i, lo_=lo_, st_=st_: lo_ + i * st_))]
+                return None
             ew = self._elementwise(it)
             if ew is None and isinstance(tgt, ast.Name):
                 arr = self.as_arr(it, None) if isinstance(it, (Arr, tuple)) and not (isinstance(it, tuple) and it and it[0] in ('iter',)) else None
@@ -1703,6 +1711,7 @@ class Interp:
                         x.value.func.id in ('zip', 'enumerate'):
                     rowish |= {n_.id for n_ in ast.walk(x.value) if isinstance(n_, ast.Name)}
         rows_of = []
+        ranges_in = []
         p = parts(it, s.target)
         if p is None:
             return None
@@ -1712,7 +1721,7 @@ class Interp:
             if self._elementwise(it) is not None:
                 return True
             return isinstance(it, tuple) and it and it[0] == 'iter' and it[1] in ('zip', 'enumerate') and any(has_ew(a) for a in it[2])
-        if not has_ew(it) and not rows_of and not (getattr(self, 'index_arrays', False) and isinstance(it, tuple) and it and
+        if not has_ew(it) and not rows_of and not ranges_in and not (getattr(self, 'index_arrays', False) and isinstance(it, tuple) and it and
                                                    it[0] == 'iter' and it[1] == 'enumerate'):
             return None
         lengths = [ln for t_, (ln, mk) in p]
@@ -1730,13 +1739,56 @@ class Interp:
                 return View(v.arr, axes)
         return Rat.atom(App('unpack', [self.as_scalar(v), Rat.const(k_)]))
 
+    def _induction_vars(self, s, loop, assigned, pre, accs):
+        """counters advanced by hand in step with a range loop - the only write to n in the body is one top-level
+        `n += c` (c a constant), nothing skips it: at the top of the iteration for loop value v the counter is
+        pre + c * (v - lo) / step (the closed form instead of an opaque loop-carried symbol)"""
+        out = {}
+        if not isinstance(s, ast.For) or loop.kind not in ('range', 'prange') or loop.lo is None or not isinstance(loop.step, Rat) or \
+                not loop.step.is_const() or abs(loop.step.const_value()) != 1:
+            return out
+
+        def skips(stmts):
+            for st in stmts:
+                if isinstance(st, (ast.For, ast.While)):
+                    if any(isinstance(x, ast.Return) for x in ast.walk(st)):
+                        return True
+                    continue
+                if any(isinstance(x, (ast.Continue, ast.Break, ast.Return)) for x in ast.walk(st) if not isinstance(x, (ast.For, ast.While))):
+                    # a continue / break / return directly in this loop's body (not in a nested loop)
+                    for x in ast.walk(st):
+                        if isinstance(x, (ast.Continue, ast.Break, ast.Return)):
+                            return True
+            return False
+        if skips(s.body):
+            return out
+        for n in assigned:
+            if n in accs or not isinstance(pre.get(n), Rat) or n == getattr(s.target, 'id', None):
+                continue
+            tops = [st for st in s.body if isinstance(st, ast.AugAssign) and isinstance(st.target, ast.Name) and st.target.id == n and
+                    isinstance(st.op, (ast.Add, ast.Sub)) and isinstance(st.value, ast.Constant) and isinstance(st.value.value, int)]
+            writes = sum(1 for st in s.body for x in ast.walk(st) if isinstance(x, ast.Name) and x.id == n and isinstance(x.ctx, ast.Store))
+            if len(tops) != 1 or writes != 1:
+                continue
+            reads = sum(1 for st in s.body for x in ast.walk(st) if isinstance(x, ast.Name) and x.id == n and isinstance(x.ctx, ast.Load))
+            if not reads:
+                continue        # a plain accumulator: summarised after the loop as before
+            c = tops[0].value.value * (1 if isinstance(tops[0].op, ast.Add) else -1)
+            out[n] = pre[n] + Rat.const(c) * (Rat.sym(loop.var) - loop.lo) * loop.step
+        return out
+
     def loop_body(self, s, loop):
         assigned = _assigned_names(s.body)
         pre = {n: self.env.get(n) for n in assigned}
         accs = _accumulators(s.body, assigned)
         # loop-carried scalars become loop-phi symbols (except pure += accumulators, summarised after)
         carried = {}
+        induction = self._induction_vars(s, loop, assigned, pre, accs)
+        for n, v0 in induction.items():
+            self.env[n] = v0
         for n in assigned:
+            if n in induction:
+                continue
             if n in pre and pre[n] is not None and _read_before_write(s.body, n):
                 self.fresh += 1
                 if isinstance(pre[n], (Rat,)) or (isinstance(pre[n], tuple) and pre[n] and pre[n][0] == 'param'):
